@@ -237,3 +237,10 @@ p["streams"] += [S("sysu", 3000, 40000)]
 p["trivial_labels"] = list(p.get("trivial_labels", [])) + ["outside-S1:flag", "rules-rejected"]
 p["rule"] += _SYS_RULE + "; 30 % of the cases carry a reload (Router.SetRules) between a sibling rule set (one rule's enabled flag, host or scheme constraint changed) and the case's rules: before the request (handled under the rules loaded last) or from inside the performer's first Do (in flight: the request is finished under the rules it started with); oracle C19: with a reload in the case the implementation behaves exactly like the model under the case's rules alone"
 p["trusted_base"] += _SYS_TB
+
+# C12 / C13: the notifier's critical section is one hold of the lock-table mutex
+for _pid in ("C12", "C13"):
+    p = PROPS[_pid]
+    if "RrProofs.Pins" not in p["modules"]:
+        p["modules"] += ["RrProofs.Pins"]
+    p["theorems"] += [T("Pins.readerNotifierShape", "pin", "readerNotifier: waiters read, woken and the key removed under ONE hold of waitingReadersLock (whole function body pinned; the model's notify step is atomic because of it)")]
